@@ -584,3 +584,60 @@ fn recycler2_replay() {
         println!("COMPLETED: before {:?}, after {:?}", before, after);
     }
 }
+
+// ---------------------------------------------------------------------------------------------
+// E3k replay (C10): `(+ x N)`, `(- x N)`, `(<= x N)` with x a local and N the literal the solver returned
+// (VERIF_IMM_LIT), against the same operations with N held in a variable (the generic code path).
+#[test]
+fn imm_replay() {
+    let n: i128 = std::env::var("VERIF_IMM_LIT").expect("VERIF_IMM_LIT").parse().unwrap();
+    let r = std::panic::catch_unwind(|| {
+        let mut engine = Engine::new();
+        let mut eval = |src: String| -> Result<String, String> {
+            engine.run(src).map(|vals| vals.last().map(|v| v.to_string()).unwrap_or_default()).map_err(|e| e.to_string())
+        };
+        let mut bad = Vec::new();
+        let _ = eval(format!("(define (f-add x) (+ x {n})) (define (f-sub x) (- x {n})) (define (f-lte x) (<= x {n}))", n = n));
+        let _ = eval(format!("(define n {n}) (define (g-add x) (+ x n)) (define (g-sub x) (- x n)) (define (g-lte x) (<= x n))", n = n));
+        for (a, b) in [("(f-add 1)", "(g-add 1)"), ("(f-sub 1)", "(g-sub 1)"), ("(f-lte 5)", "(g-lte 5)")] {
+            let (x, y) = (eval(a.to_string()), eval(b.to_string()));
+            if x != y {
+                bad.push(format!("{} with the literal {} in the call => {:?}, with the same number in a variable => {:?}", a, n, x, y));
+            }
+        }
+        bad
+    });
+    match r {
+        Ok(bad) if bad.is_empty() => println!("COMPLETED: literal and variable operands agree"),
+        Ok(bad) => println!("OBSERVED: {}", bad.join("; ")),
+        Err(_) => println!("OBSERVED: compiling or running (+ x {}) with x a local variable panicked in the host", n),
+    }
+}
+
+// ---------------------------------------------------------------------------------------------
+// E3l replay (C07): script calls (VERIF_IDX_CALLS = "prelude ;; call ;; call ...") with an index that passes the
+// procedure's guard but not the precondition of the indexing call behind it; a panic in the host is the violation.
+#[test]
+fn idxguard_replay() {
+    let spec = std::env::var("VERIF_IDX_CALLS").expect("VERIF_IDX_CALLS");
+    let mut parts = spec.split(";;").map(|x| x.trim().to_string());
+    let prelude = parts.next().unwrap_or_default();
+    let mut bad = Vec::new();
+    for call in parts.filter(|x| !x.is_empty()) {
+        let (p, c) = (prelude.clone(), call.clone());
+        let r = std::panic::catch_unwind(move || {
+            let mut engine = Engine::new();
+            let _ = engine.run(p);
+            engine.run(c).map(|vals| vals.last().map(|v| v.to_string()).unwrap_or_default()).map_err(|e| e.to_string())
+        });
+        match r {
+            Err(_) => bad.push(format!("{} panicked in the host", call)),
+            Ok(v) => eprintln!("NOTE: {} => {:?}", call, v),
+        }
+    }
+    if bad.is_empty() {
+        println!("COMPLETED: every call returned a value or an error");
+    } else {
+        println!("OBSERVED: {}", bad.join("; "));
+    }
+}
